@@ -21,3 +21,25 @@ def cubic_weights_nd(grids, x):
         Wd = cubic_weights_1d(gd, x[:, d])
         W = Wd if W is None else (W.unsqueeze(-1) * Wd.unsqueeze(-2)).reshape(x.shape[0], -1)
     return W
+
+
+def weights_1d_with_boundaries(grid, x):
+    """dense interpolation matrix on the whole grid range: cubic convolution where the 4-point stencil fits, and - in the
+    first and the last grid cell, where it does not - all weight on the NEAREST grid node (the library's stated boundary rule)"""
+    n = grid.shape[0]
+    h = grid[1] - grid[0]
+    cell = torch.floor((x - grid[0]) / h).clamp(0, n - 1)
+    W = cubic_weights_1d(grid, x)
+    boundary = (cell < 1) | (cell >= n - 2)
+    nearest = (x.unsqueeze(-1) - grid.unsqueeze(0)).abs().argmin(-1)
+    onehot = torch.zeros_like(W)
+    onehot[torch.arange(x.shape[0]), nearest] = 1.0
+    return torch.where(boundary.unsqueeze(-1), onehot, W)
+
+
+def weights_nd_with_boundaries(grids, x):
+    W = None
+    for d, gd in enumerate(grids):
+        Wd = weights_1d_with_boundaries(gd, x[:, d])
+        W = Wd if W is None else (W.unsqueeze(-1) * Wd.unsqueeze(-2)).reshape(x.shape[0], -1)
+    return W
